@@ -312,7 +312,7 @@ fn random_histories(ctx: &Ctx, rep: &mut Report, r: &mut Rng) {
         let mut plan: Vec<(u8, u8, Option<u8>, Vec<u8>, u8, Option<bool>)> = Vec::new();
         let mut last_id: Option<u8> = None;
         while plan.len() < len {
-            let n = r.range(2, 9) as u8;
+            let n = if r.chance(1, 40) { r.range(10, 255) as u8 } else { r.range(2, 9) as u8 };
             let id = match r.below(5) {
                 0 => None,
                 1 => last_id, // reuse the id immediately
